@@ -362,5 +362,15 @@ theorem head_in_pieces_not_credited (head : Nat) (acks : List Nat) (h : acks.sum
     (creditAfter head acks).released = 0 := by
   rw [(request_credit_exact head acks).1]; omega
 
+/-- the credit depends only on how much was acknowledged, not on how the acknowledgements were cut:
+two schedules with the same total leave the same credit, and the credit never shrinks as more is
+acknowledged -/
+theorem request_credit_schedule_independent (head : Nat) (acks acks' more : List Nat) (h : acks.sum = acks'.sum) :
+    (creditAfter head acks).released = (creditAfter head acks').released ∧
+    (creditAfter head acks).released ≤ (creditAfter head (acks ++ more)).released := by
+  rw [(request_credit_exact head acks).1, (request_credit_exact head acks').1,
+    (request_credit_exact head (acks ++ more)).1, List.sum_append, h]
+  exact ⟨rfl, by omega⟩
+
 example : (creditAfter 116 [10, 106, 32]).released = 32 ∧ (creditAfter 116 [0, 200]).released = 84 := by decide
 end TT.Fwd
